@@ -149,7 +149,14 @@ func (t *wScreen) drawCell(x, y int) int {
 	if len(combc) > 0 {
 		b := make([]rune, 0, 1 + len(combc))
 		b = append(b, mainc)
-		b = append(b, combc...)
+		for _, r := range combc {
+			if r < ' ' || (r >= 0x7f && r < 0xa0) {
+				// a control character is no combining mark (a line
+				// feed here would add a row to the page)
+				continue
+			}
+			b = append(b, r)
+		}
 		s = string(b)
 	} else {
 		s = string(mainc)
@@ -210,6 +217,11 @@ func (t *wScreen) draw() {
 	for y := 0; y < t.h; y++ {
 		for x := 0; x < t.w; x++ {
 			width := t.drawCell(x, y)
+			if width > 1 && x+1 < t.w {
+				// the covered column was drawn empty: should it ever show
+				// again, it has to be drawn again
+				t.cells.SetDirty(x+1, y, true)
+			}
 			x += width - 1
 		}
 	}
